@@ -1771,3 +1771,82 @@ func (c *Ctx) INC8(rule string) []report.Obligation {
 	}
 	return out
 }
+
+// ---------------------------------------------------------------------------
+// CODECINT (C09, C08): a signed integer type of the model that renders itself
+// as the decimal TEXT of its value (`fmt.Sprintf("%d", u)` in a string) must
+// read that text back: the string arm of its decoder parses a signed decimal
+// (strconv.ParseInt / Atoi) and does not only go through a parser of sizes
+// with units, which rejects a minus sign (`memswap_limit: -1` means unlimited).
+// ---------------------------------------------------------------------------
+
+func (c *Ctx) CODECINT(rule string) []report.Obligation {
+	var out []report.Obligation
+	n := 0
+	for _, my := range c.P.Funcs {
+		if my.Signature.Recv() == nil || my.Name() != "MarshalYAML" || !strings.HasPrefix(c.P.FuncID(my), "types.") {
+			continue
+		}
+		rt := my.Signature.Recv().Type()
+		if pt, ok := rt.Underlying().(*types.Pointer); ok {
+			rt = pt.Elem()
+		}
+		named, ok := rt.(*types.Named)
+		if !ok {
+			continue
+		}
+		bt, ok := named.Underlying().(*types.Basic)
+		if !ok || bt.Info()&types.IsInteger == 0 || bt.Info()&types.IsUnsigned != 0 {
+			continue
+		}
+		// renders "%d" of itself as text
+		asText := false
+		scope := []*ssa.Function{my}
+		for _, cs := range callSites(my, func(com *ssa.CallCommon) bool {
+			cal := com.StaticCallee()
+			return cal != nil && c.P.InModule(cal) && cal.Blocks != nil && cal.Signature.Recv() != nil
+		}) {
+			scope = append(scope, cs.Common().StaticCallee())
+		}
+		for _, g := range scope {
+			for _, cs := range callSites(g, func(com *ssa.CallCommon) bool {
+				switch staticName(com) {
+				case "fmt.Sprintf", "strconv.FormatInt", "strconv.Itoa":
+					return true
+				}
+				return false
+			}) {
+				if staticName(cs.Common()) != "fmt.Sprintf" {
+					asText = true
+				} else if f, ok := constStr(cs.Common().Args[0]); ok && strings.Contains(f, "%d") {
+					asText = true
+				}
+			}
+		}
+		if !asText {
+			continue
+		}
+		n++
+		dec := c.P.Func("types.(*" + named.Obj().Name() + ").DecodeMapstructure")
+		key := "types." + named.Obj().Name() + " :: the decimal text it renders is read back as a signed number"
+		if dec == nil {
+			out = append(out, bad(rule, key, c.P.Pos(my.Pos()), "no DecodeMapstructure on the type"))
+			continue
+		}
+		signed := false
+		for _, cs := range callSites(dec, func(com *ssa.CallCommon) bool {
+			sn := staticName(com)
+			return sn == "strconv.ParseInt" || sn == "strconv.Atoi"
+		}) {
+			_ = cs
+			signed = true
+		}
+		out = append(out, verdict(signed, rule, key, c.P.Pos(dec.Pos()), "the decoder parses a signed decimal before anything else",
+			"the marshallers render the value as decimal text (`%d`), negative values included, but the decoder never parses a signed decimal: the rendering of a negative value (-1: unlimited) is rejected on reload, and so is the same text supplied through a variable"))
+	}
+	c.Stats[rule+".types"] = n
+	if n == 0 {
+		out = append(out, anchorViolation(rule, "an integer model type that renders itself as decimal text"))
+	}
+	return out
+}
